@@ -154,11 +154,13 @@ func Plan(thorough bool, run RunFn) {
 		// (part,config) subsumes the shallower one in the evidence
 		A("tx", 2, 2)
 		F("1e3x1e3")
+		F("1e3x1e3-nolp") // seeded liquidity, no liquidity provider: the root's point list is empty when the fallback fires
 		B("1e3x1e3", 2, 2)
 		A("own", 2, 2)
 		B("2p63x2p63", 2, 2)
 		B("1x2p62", 2, 2)
 		B("1x1", 2, 2)
+		B("1e3x1e3-nolp", 2, 2)
 		A("tx", 3, 3)
 		A("own", 3, 3)
 		B("1e3x1e3", 3, 3)
@@ -176,6 +178,7 @@ func Plan(thorough bool, run RunFn) {
 	F("2p63x2p63")
 	F("1x2p62")
 	F("1x1")
+	F("1e3x1e3-nolp")
 	A("tx", 4, 4)
 	for _, c := range BConfigs {
 		B(c.Name, 3, 3)
